@@ -159,7 +159,7 @@ def compile_code(
                 if not value:
                     tag = tag[3:].strip()
 
-                if hasattr(options, tag):
+                if tag in CompileOptions.__dataclass_fields__:
                     setattr(options, tag, value)
 
     if __import__("os").environ.get("PYTRAPIC_VERIF") == "1":
